@@ -185,4 +185,26 @@ theorem witness_malleated (fl : Flags) (chk : Checker) (sig pk : Bytes) (wit : L
         · cases h
         · cases h
 
+
+/-- a P2SH output can only be spent with a push-only scriptSig -/
+theorem p2sh_requires_push_only (fl : Flags) (chk : Checker) (sig pk : Bytes) (wit : List Bytes)
+    (hp : fl.p2sh = true) (hpk : isP2SH pk = true) (hpo : isPushOnly sig = false) :
+    verifyScript fl chk sig pk wit ≠ .ok () := by
+  intro h
+  unfold verifyScript at h
+  have hwp := p2sh_not_witnessProgram pk hpk
+  simp only [hp, hpk, hpo, hwp, Bool.not_false, Bool.and_true, Bool.true_and, if_true, bind, Except.bind, pure,
+    Except.pure] at h
+  split at h
+  · cases h
+  · split at h
+    · cases h
+    · split at h
+      · cases h
+      · split at h
+        · cases h
+        · split at h
+          · cases h
+          · cases h
+
 end BV.C06.Lemmas
